@@ -273,6 +273,15 @@ def bookkeeping(ctx, crate, crs, e, tag):
             k = kind(b, s["r"]["o"], e) if s["r"]["k"] == "use" else dim.TOP
             pd = b.postdominators()
             on_all_paths = i in pd.get(0, set())
+            if not (k == LAST and on_all_paths) and k == IDX:
+                # `if idx > self.max { self.max = idx }` - the same maximum as a guarded assignment
+                for c in q.conds(b, crs):
+                    if c.kind != "cmp":
+                        continue
+                    ka, kb = kind(b, c.a, e), kind(b, c.b, e)
+                    gt = (c.op in ("Gt", "Ge") and ka == IDX and kb == LAST) or (c.op in ("Lt", "Le") and ka == LAST and kb == IDX)
+                    if gt and q.edge_dominates(b, c.bb, c.target(True), i) and c.bb in pd.get(0, set()):
+                        k, on_all_paths = LAST, True
             ctx.ob("len-bookkeeping" + tag, b.key, "max=max(max,id)", k == LAST and on_all_paths, "%s:%s" % (b.file, s["line"]),
                    "max is raised to the inserted id on every path (kind %s)" % (k,))
     # nobody else writes len / max
